@@ -5,7 +5,9 @@ import (
 	"bytes"
 	"fmt"
 	"reflect"
+	"runtime/debug"
 	"runtime/metrics"
+	"verif/mc/guardpage"
 
 	"github.com/segmentio/encoding/proto"
 	"google.golang.org/protobuf/encoding/protowire"
@@ -62,10 +64,29 @@ var quickTargets = func() []int {
 	return idx
 }()
 
+// edgeInputs: the families that only ask for totality hand every input to the package in a buffer that ends at
+// the last byte before an inaccessible page (a read beyond the input faults; the fault surfaces as a panic).
+var (
+	edgeInputs bool
+	edge       *guardpage.Region
+)
+
+func atEdge(in []byte) []byte {
+	if !edgeInputs || len(in) > 4096 {
+		return in
+	}
+	if edge == nil {
+		edge = guardpage.New()
+	}
+	debug.SetPanicOnFault(true)
+	return edge.AtEnd(in)
+}
+
 // decode runs Unmarshal into a fresh target under the monitor. It returns the decoded value when err == nil.
 func decode(c *explore.Ctx, t target, in []byte, site string) (reflect.Value, error, bool) {
 	out := reflect.New(t.msg.Type)
 	var err error
+	in = atEdge(in)
 	if !warmed[t.msg.Type] { // codec construction (and the cache copy it triggers) is not part of the measured decode
 		warmed[t.msg.Type] = true
 		explore.Catch(func() {
@@ -122,6 +143,7 @@ type rawField struct {
 func scanSeg(c *explore.Ctx, in []byte, site string) ([]rawField, error, bool) {
 	var fields []rawField
 	var err error
+	in = atEdge(in)
 	before := allocated()
 	pv, ps := explore.Catch(func() {
 		err = proto.Scan(in, func(f proto.FieldNumber, t proto.WireType, v proto.RawValue) (bool, error) {
@@ -284,7 +306,9 @@ func toplevelTargets(c *explore.Ctx) {
 	var n int64
 	run := func(in []byte) {
 		n++
-		in = append(make([]byte, 0, len(in)), in...)[:len(in):len(in)] // capacity ends with the input: reading past it faults
+		edgeInputs = true
+		in = atEdge(in) // the input ends at the last byte before an inaccessible page: reading past it faults
+		edgeInputs = false
 		out := reflect.New(tt)
 		if pv, ps := explore.Catch(func() { proto.Unmarshal(in, out.Interface()) }); pv != nil {
 			c.Fail("toplevel:panic:"+ps+":"+explore.PanicClass(pv), "Unmarshal(% x) into a top-level %s panicked: %v", trunc(in), tt, pv)
@@ -320,6 +344,8 @@ func toplevelTargets(c *explore.Ctx) {
 }
 
 func shortBytes(c *explore.Ctx) {
+	edgeInputs = true
+	defer func() { edgeInputs = false }()
 	t := pickTarget(c)
 	mode := c.Choose(2)
 	var n, accepted int64
@@ -372,6 +398,8 @@ func shortBytes(c *explore.Ctx) {
 
 // all byte strings of length 3 over all 256 values, for a few targets
 func length3(c *explore.Ctx) {
+	edgeInputs = true
+	defer func() { edgeInputs = false }()
 	reps := []int{0, 1, 3, 9, 24, 30}
 	t := targets[quickTargets[reps[c.Choose(len(reps))]%len(quickTargets)]]
 	a := c.Choose(256)
@@ -412,6 +440,8 @@ func validEncoding(c *explore.Ctx, t target) (reflect.Value, []byte, bool) {
 var lengthSubst = []uint64{0, 1, 127, 128, 1<<31 - 1, 1 << 32, 1 << 63, 1<<64 - 1}
 
 func mutations(c *explore.Ctx) {
+	edgeInputs = true
+	defer func() { edgeInputs = false }()
 	t := pickTarget(c)
 	_, e, ok := validEncoding(c, t)
 	if !ok || len(e) > 600 {
@@ -786,7 +816,7 @@ func Spec() *explore.Spec {
 		ID: "C07",
 		Families: []*explore.Family{
 			{Name: "short-bytes", ShardDepth: 2, Body: shortBytes, Doc: "all byte strings <=2 over all 256 values and <=5 (6 thorough) over a 16-byte class alphabet x target types covering every codec"},
-			{Name: "toplevel-targets", ShardDepth: 2, Body: toplevelTargets, Doc: "13 non-struct top-level targets (every scalar kind, string, []byte, [8]byte, RawMessage) reached as T, *T and **T x all byte strings <= 2 over all 256 values and 700 patterned strings of length 3..12, each in a buffer whose capacity ends with the input: no panic"},
+			{Name: "toplevel-targets", ShardDepth: 2, Body: toplevelTargets, Doc: "13 non-struct top-level targets (every scalar kind, string, []byte, [8]byte, RawMessage) reached as T, *T and **T x all byte strings <= 2 over all 256 values and 700 patterned strings of length 3..12, each in a buffer that ends at the last byte before an inaccessible page: no panic, no read beyond the input"},
 			{Name: "length3", ShardDepth: 2, Body: length3, Doc: "all byte strings of length 3 over all 256 values for 6 representative targets"},
 			{Name: "mutations", ShardDepth: 2, Body: mutations, Doc: "valid encodings of boundary values: every prefix, every (position x 256) corruption, every byte replaced by special varints (0,1,127,128,2^31-1,2^32,2^63,2^64-1, 11-byte)"},
 			{Name: "depth-ladder", ShardDepth: 3, HangSeconds: 300, MaxWorkers: 8, Body: depthLadder, Doc: "messages nested 100 ... 4,000,000 deep by the sender through a pointer field, a repeated field and a map value of a recursive message type, complete and cut by one byte: an error or a value, no stack overflow"},
